@@ -38,6 +38,7 @@ def anchorFirst : List (Nat × Bool) → List (Nat × Bool)
 
 def step (st : State) (w : List String) : State × String :=
   match w with
+  | ["mc", "new"] | ["mnz", "new"] | ["mttl", "new"] | ["nsttl", "new"] | ["lease", "new"] | ["rem", "new"] => (st, "ok")
   | ["ac", "new"] => ({ st with ac := {}, now := 0 }, "ok")
   | ["ac", "now", t] =>
     match t.toInt? with
